@@ -83,6 +83,15 @@ impl<'a> Tr<'a> {
                     return Ok((tmp, RTy::Bool));
                 }
                 let (l, r) = (paren(&l), paren(&r));
+                if lt == RTy::I8 {
+                    // two's-complement byte arithmetic of `impl IsZero for [u8]`
+                    return match (&b.op, lit_int(&b.right)) {
+                        (BitOr(_), _) => Ok((format!("N.lor {} {}", l, r), RTy::I8)),
+                        (Shr(_), Some(7)) => Ok((format!("i8_sar7 {}", l), RTy::I8)),
+                        (Add(_), Some(1)) => Ok((format!("i8_add1 {}", l), RTy::I8)),
+                        _ => Err("i8 arithmetic outside the fragment".into()),
+                    };
+                }
                 Ok(match b.op {
                     Mul(_) => (format!("rs_mul {} {}", l, r), if lt == RTy::Unknown { rt } else { lt }),
                     Add(_) => (format!("rs_add {} {}", l, r), if lt == RTy::Unknown { rt } else { lt }),
@@ -182,6 +191,8 @@ impl<'a> Tr<'a> {
                 let to = rty_of(&c.ty, &self.f.generics);
                 match (&t, &to) {
                     (RTy::U64, RTy::Usize) => Ok((format!("N.to_nat ({} mod USIZE)", paren(&v)), RTy::Usize)),
+                    (RTy::U8, RTy::I8) => Ok((format!("N.land {} 255", paren(&v)), RTy::I8)),
+                    (RTy::I8, RTy::U8) => Ok((v, RTy::U8)),
                     (RTy::U8, RTy::Usize) => Ok((format!("N.to_nat {}", paren(&v)), RTy::Usize)),
                     (RTy::U128, RTy::U64) => Ok((format!("{} mod 2 ^ 64", paren(&v)), RTy::U64)),
                     (RTy::Usize, RTy::U64) => Ok((format!("N.of_nat {}", paren(&v)), RTy::U64)),
@@ -565,6 +576,24 @@ impl<'a> Tr<'a> {
                 return Ok((format!("(if {} then {} else {})", cnd, b, a), t));
             }
             "SystemTime::now" => return Ok(("tt".into(), RTy::Unit)),
+            "Choice::from" => {
+                return Ok(match lit_int(args[0]) {
+                    Some(0) => ("false".into(), RTy::Bool),
+                    Some(1) => ("true".into(), RTy::Bool),
+                    _ => {
+                        let v = self.expr(args[0])?.0;
+                        (format!("rs_eqb {} 1%N", paren(&v)), RTy::Bool)
+                    }
+                });
+            }
+            "hkdf::HkdfExtract::<sha2::Sha256>::new" => {
+                let v = self.expr(args[0])?.0;
+                return Ok((format!("hkdf_new {}", paren(&v)), RTy::Unknown));
+            }
+            "Scalar::from_okm" => {
+                let v = self.expr(args[0])?.0;
+                return Ok((format!("from_okm {} {}", self.o(), paren(&v)), RTy::Scalar));
+            }
             "Vec::with_capacity" | "Vec::new" => return Ok(("[]".into(), RTy::Unknown)),
             "HashMap::new" => return Ok(("(@nil (bytes * nat))".into(), RTy::Unknown)),
             "Shake128::default" | "Sha256::default" => return Ok(("(@nil N)".into(), RTy::Bytes)),
@@ -619,6 +648,23 @@ impl<'a> Tr<'a> {
             }
             "<Sha256asDigest>::update" => return Err("hasher update in expression position".into()),
             _ => {}
+        }
+        if s.ends_with("Scalar::from_repr") {
+            let v = self.expr(args[0])?.0;
+            return Ok((format!("unrepr {} {}", self.o(), paren(&v)), RTy::Opt(Box::new(RTy::Scalar))));
+        }
+        if s.ends_with("Repr::default") {
+            return Ok(("rs_vec_zeros 32%nat".into(), RTy::Bytes));
+        }
+        if s.starts_with("<[u8;") && s.ends_with("]>::try_from") {
+            // <[u8; N]>::try_from(slice) with a const generic length
+            let n = &s["<[u8;".len()..s.len() - "]>::try_from".len()];
+            let nv = match n.parse::<u64>() {
+                Ok(k) => format!("{}%nat", k),
+                Err(_) => vname(n),
+            };
+            let v = self.expr(args[0])?.0;
+            return Ok((format!("rs_try_array {} {}", nv, paren(&v)), RTy::Opt(Box::new(RTy::Bytes))));
         }
         // group constants
         if last == "generator" || last == "identity" {
@@ -908,7 +954,16 @@ impl<'a> Tr<'a> {
         }
         let rp = paren(&r);
         Ok(match name.as_str() {
+            "is_zero" if rt == RTy::Bytes => (format!("is_zero_bytes {}", rp), RTy::Bool),
             "is_zero" => (format!("is_zero_s {}", rp), RTy::Bool),
+            "wrapping_neg" if rt == RTy::I8 => (format!("i8_wrapping_neg {}", rp), RTy::I8),
+            "finalize" => (format!("(tt, hkdf_extract {} (fst {}) (snd {}))", self.o(), rp, rp), RTy::Tuple(vec![RTy::Unit, RTy::Bytes])),
+            "expand" => {
+                let info = self.expr(args[0])?.0;
+                let buf = base_var(args[1]).ok_or("expand buffer")?;
+                self.pre.push(Bind::Let(vname(&buf), format!("hkdf_expand {} {} {} (length {})", self.o(), rp, paren(&info), vname(&buf))));
+                ("(@Ok unit tt)".into(), RTy::Res(Box::new(RTy::Unit)))
+            }
             "is_identity" => (format!("is_id {}", rp), RTy::Bool),
             "to_bytes" => match rt {
                 RTy::PkPt | RTy::SigPt | RTy::GtPt => (format!("enc {} {}", self.o(), rp), RTy::Bytes),
@@ -1058,6 +1113,13 @@ impl<'a> Tr<'a> {
         })
     }
 
+    /// `let t = x.as_mut();` makes t an alias of x: after a write through t, x is updated too
+    pub fn sync_alias(&mut self, n: &str) {
+        if let Some(target) = self.alias.get(n).cloned() {
+            self.pre.push(Bind::Let(vname(&target), vname(n)));
+        }
+    }
+
     /// an expression statement evaluated for its effect on variables
     pub fn effect_stmt(&mut self, e: &syn::Expr) -> R<()> {
         match strip(e) {
@@ -1084,6 +1146,13 @@ impl<'a> Tr<'a> {
                     _ => Err("assignment target".into()),
                 }
             }
+            syn::Expr::Binary(b) if matches!(b.op, syn::BinOp::BitOrAssign(_)) => {
+                let n = base_var(&b.left).ok_or("compound assignment target")?;
+                let v = self.expr(&b.right)?.0;
+                self.pre.push(Bind::Let(vname(&n), format!("N.lor {} {}", vname(&n), paren(&v))));
+                self.sync_alias(&n);
+                Ok(())
+            }
             syn::Expr::Binary(b) if matches!(b.op, syn::BinOp::AddAssign(_) | syn::BinOp::SubAssign(_)) => {
                 let n = base_var(&b.left).ok_or("compound assignment target")?;
                 let v = self.expr(&b.right)?.0;
@@ -1106,6 +1175,25 @@ impl<'a> Tr<'a> {
                         let v = self.expr(args[0])?.0;
                         let t = if name == "push" { format!("{} ++ [{}]", vname(&n), v) } else { format!("{} ++ {}", vname(&n), paren(&v)) };
                         self.pre.push(Bind::Let(vname(&n), t));
+                        Ok(())
+                    }
+                    "reverse" => {
+                        let n = base_var(&m.receiver).ok_or("reverse on a non-variable")?;
+                        self.pre.push(Bind::Let(vname(&n), format!("rev {}", vname(&n))));
+                        self.sync_alias(&n);
+                        Ok(())
+                    }
+                    "input_ikm" => {
+                        let n = base_var(&m.receiver).ok_or("extractor variable")?;
+                        let v = self.expr(args[0])?.0;
+                        self.pre.push(Bind::Let(vname(&n), format!("(fst {}, snd {} ++ {})", vname(&n), vname(&n), paren(&v))));
+                        Ok(())
+                    }
+                    "copy_from_slice" if base_var(&m.receiver).is_some() && !matches!(strip(&m.receiver), syn::Expr::Index(_)) => {
+                        let n = base_var(&m.receiver).unwrap();
+                        let v = self.expr(args[0])?.0;
+                        self.pre.push(Bind::M(vname(&n), format!("rs_copy_range {} 0%nat (length {}) {}", vname(&n), vname(&n), paren(&v))));
+                        self.sync_alias(&n);
                         Ok(())
                     }
                     "append_message" => {
